@@ -66,15 +66,23 @@ Proof.
   split; vm_compute; reflexivity.
 Qed.
 
-(* Stage 3, first increment (see C01_undo_restores_calc_then_rename_partial): calc deltas interleaved with RenameColumn
-   and RenameTable after the leading doc actions.  The stored list is the doc actions followed by the updates of the
-   flush under the latest names; replayed on the undone document it reproduces the post-bundle document. *)
-Theorem C03_redo_calc_then_rename_partial : forall O, ValLaws O -> C03_statement O (docs_calcs_renames O).
+(* Stage 3 (see C01_undo_restores_stage3_partial for the class `bundle_ok3` and the proof): calc deltas interleaved with
+   renames, any lossless doc action while nothing is pending, and the ModifyColumn / conversion delta / per-column
+   flush triples of doModifyColumn.  The stored list is the doc actions in order, the stored update of each per-column
+   flush right after its ModifyColumn, and the updates of the final flush under the latest names; replayed on the
+   undone document it reproduces the post-bundle document. *)
+Theorem C03_redo_stage3_partial : forall O, ValLaws O -> C03_statement O (stage3_events O).
 Proof. intros O L s es s' out s0 _ Hok H Hu. exact (bundle_ok3_redo O L s es s' out s0 Hok H Hu). Qed.
 
+Theorem C03_redo_calc_then_rename_partial : forall O, ValLaws O -> C03_statement O (docs_calcs_renames O).
+Proof. exact C03_redo_stage3_partial. Qed.
+
+Theorem C03_redo_modify_flush_partial : forall O, ValLaws O -> C03_statement O (stage3_events O).
+Proof. exact C03_redo_stage3_partial. Qed.
+
 Theorem C03_redo_calc_then_rename_encoded_partial : forall tt, tt_ok tt = true ->
-  C03_statement (EOps tt) (docs_calcs_renames (EOps tt)).
-Proof. intros tt H. apply C03_redo_calc_then_rename_partial. apply EOps_laws. exact H. Qed.
+  C03_statement (EOps tt) (stage3_events (EOps tt)).
+Proof. intros tt H. apply C03_redo_stage3_partial. apply EOps_laws. exact H. Qed.
 
 Example C03_calc_then_rename_nonvacuous :
   bundle_ok3 ZOps ex3_state ex5_events = true /\
@@ -82,6 +90,22 @@ Example C03_calc_then_rename_nonvacuous :
     run ZOps ex3_state ex5_events = Ok (s', out) /\
     o_stored ZOps out = [BulkUpdateRecord ZOps nT [1] [(nA, [11])]; RenameColumn ZOps nT nF [71];
                          RenameTable ZOps nT [85]; BulkUpdateRecord ZOps [85] [1; 2] [([71], [11; 21])]] /\
+    replay_doc ZOps (rev (o_undo ZOps out)) s' = Ok s0 /\
+    replay_doc ZOps (o_stored ZOps out) s0 = Ok s1 /\ view ZOps s1 = view ZOps s'.
+Proof.
+  split; [vm_compute; reflexivity|]. eexists. eexists. eexists. eexists.
+  split; [vm_compute; reflexivity|]. split; [reflexivity|]. split; [vm_compute; reflexivity|].
+  split; vm_compute; reflexivity.
+Qed.
+
+Example C03_modify_flush_nonvacuous :
+  bundle_ok3 ZOps ex3_state ex6_events = true /\
+  exists s' out s0 s1,
+    run ZOps ex3_state ex6_events = Ok (s', out) /\
+    o_stored ZOps out = [BulkUpdateRecord ZOps nT [2] [(nA, [21])];
+                         ModifyColumn ZOps nT nA (mkMI (Some nText) None None None);
+                         BulkUpdateRecord ZOps nT [1] [(nA, [11])];
+                         RenameTable ZOps nT [85]; BulkUpdateRecord ZOps [85] [2] [(nF, [21])]] /\
     replay_doc ZOps (rev (o_undo ZOps out)) s' = Ok s0 /\
     replay_doc ZOps (o_stored ZOps out) s0 = Ok s1 /\ view ZOps s1 = view ZOps s'.
 Proof.
